@@ -269,7 +269,8 @@ def _random_message(g, state, message_id, cls=None, p=0.8):
     if cls == 'RunningOrderReplace':
         return cls, B.ro_replace([g.new_story() for _ in range(r.randrange(0, 4))], pattern=r.choice(B.PATTERNS),
                                  slug=r.choice(['replaced slug', 'replaced slug', '  Late   News ', '\n padded \n', 'Ünï']),
-                                 ed_start=r.choice([None, '2021-03-04T09:30:00', '\n  2021-03-04T09:30:00\n']), **kw)
+                                 ed_start=r.choice([None, '2021-03-04T09:30:00', '\n  2021-03-04T09:30:00\n']),
+                                 **dict(kw, ro_id=r.choice(['RO1', 'RO1', 'RO1', 'OTHER-RO', BLANK]) if g.odd_message_ids else 'RO1'))
     if cls == 'MetaDataReplace':
         ch = []
         if r.random() < 0.7:
